@@ -582,7 +582,7 @@ fn main() {
         let with_restart = thorough || (ops.len() == core_ops.len() && *max_ops == 2);
         let alpha = alphabet(*nodes, ops, with_restart);
         let mut bfs = Bfs::new(alpha.len(), *depth);
-        bfs.deadline = Some(Instant::now() + Duration::from_secs(if thorough { 900 } else { 120 }));
+        bfs.deadline = Some(Instant::now() + Duration::from_secs(if thorough { 420 } else { 120 }));
         let disabled = std::sync::atomic::AtomicU64::new(0);
         let stats = bfs.run("init", |hist, ev| match run(*nodes, *max_ops, &alpha, hist, ev) {
             None => {
@@ -635,7 +635,7 @@ fn main() {
         let max_msgs = max_ops * (nodes - 1);
         let alpha = cluster::alphabet(*nodes, ops, max_msgs);
         let mut bfs = Bfs::new(alpha.len(), *depth);
-        bfs.deadline = Some(Instant::now() + Duration::from_secs(if thorough { 900 } else { 60 }));
+        bfs.deadline = Some(Instant::now() + Duration::from_secs(if thorough { 240 } else { 60 }));
         let disabled = std::sync::atomic::AtomicU64::new(0);
         let quiescent_states = std::sync::atomic::AtomicU64::new(0);
         let stats = bfs.run("init", |hist, ev| match RT.with(|rt| rt.block_on(cluster::run(*mode, *nodes, *rf, *max_ops, &alpha, hist, ev))) {
@@ -684,7 +684,7 @@ fn main() {
         let alpha = cluster::sim::alphabet(*nodes, ops);
         let b = cluster::sim::Bounds { max_writes: *writes, max_partitions: *parts };
         let mut bfs = Bfs::new(alpha.len(), *depth);
-        bfs.deadline = Some(Instant::now() + Duration::from_secs(if thorough { 900 } else { 60 }));
+        bfs.deadline = Some(Instant::now() + Duration::from_secs(if thorough { 240 } else { 60 }));
         let disabled = std::sync::atomic::AtomicU64::new(0);
         let quiescent_states = std::sync::atomic::AtomicU64::new(0);
         let stats = bfs.run("init", |hist, ev| match cluster::sim::run(*nodes, *rf, &b, &alpha, hist, ev) {
